@@ -291,3 +291,11 @@ func sortedKeys(m map[string]string) []string {
 }
 
 var _ = time.Now
+
+// accepted: the fault-free compiler took the program and wrote output without
+// crashing (a recovered panic on a valid program is outside the claimed
+// properties; such programs are discarded and counted).
+func accepted(wr *worldRun) bool {
+	return wr != nil && wr.Res != nil && wr.Res.Exit == 0 && wr.Res.ExitHow == "return" &&
+		!strings.Contains(wr.Stdout, "Recovered from panic") && len(outputs(wr.Res, "/work/out")) > 0
+}
